@@ -5,7 +5,7 @@ patch="$1"; id="$2"; tier="${3:-quick}"
 cd /repo || exit 2
 if [ -n "$(git status --porcelain)" ]; then echo "/repo not clean"; exit 2; fi
 git apply "$patch" || { echo "patch does not apply"; exit 2; }
-export VERIF_DIR=/tmp/verif-try-$$; mkdir -p $VERIF_DIR; cp -r /verif/harness /verif/bin /verif/known_findings.jsonl $VERIF_DIR/ 2>/dev/null
+export VERIF_DIR=/tmp/verif-try-$$; mkdir -p $VERIF_DIR; cp -r /verif/harness /verif/bin /verif/overlay /verif/known_findings.jsonl $VERIF_DIR/ 2>/dev/null
 mkdir -p $VERIF_DIR/.build
 out=$(VERIF_DIR=$VERIF_DIR timeout 3600 $VERIF_DIR/bin/vcheck "$id" --tier "$tier" 2>&1); rc=$?
 git -C /repo checkout -- . 
